@@ -297,20 +297,26 @@ pub fn gen_c19(seed: u64, thorough: bool) {
         };
         // every fifth tuple: the GV-off contexts are held as a regex-type question (the fallback representation)
         let base: Voice = if t % 5 == 4 { crate::engine::with_gv_off(&base, &["*-sil+*".to_string(), "*-pau+*".to_string()]) } else { base };
-        let k = rng.range(0, 3);
+        let k = rng.range(0, 4);
         let mut vs: Vec<Voice> = (0..k).map(|_| base.clone()).collect();
         let mut what = "none";
+        let mut odd: Option<usize> = None;
         if k >= 2 && rng.chance(0.75) {
             // the odd one out at any position, the first included (an asymmetric comparison only shows one way round)
             let j = rng.range(0, k - 1);
             what = mutate_meta(&mut rng, &mut vs[j]);
+            odd = Some(j);
         }
+        // every other tuple: the unmutated voices are one allocation (the same `Arc` repeated, as a caller blending a voice
+        // with itself writes it), not equal copies (seeded change C19h: a pointer-equality fast path that ends the comparison)
+        let share = t % 2 == 1;
+        let shared = Arc::new(base.clone());
         let mut line = String::from("vset");
         push_u(&mut line, k);
         for v in &vs {
             push_meta(&mut line, v);
         }
-        let r = VoiceSet::new(vs.into_iter().map(Arc::new).collect());
+        let r = VoiceSet::new(vs.into_iter().enumerate().map(|(j, v)| if share && odd != Some(j) { shared.clone() } else { Arc::new(v) }).collect());
         push_s(&mut line, match r {
             Ok(_) => "ok",
             Err(ModelError::EmptyVoice) => "err:empty",
